@@ -188,6 +188,26 @@ def minimise(ctx, s, model):
     return model
 
 
+def segment_stmts(c, fnode):
+    """the statements under verification: the whole body, or (for a segment contract) the top-level statements of the
+    real function from the one starting with segment['from'] up to (excluding) the one starting with segment['to'];
+    the statements before it are abstracted into the declared entry state — stated in the evidence"""
+    import ast
+
+    if not c.segment:
+        return fnode.body
+    texts = [ast.unparse(s) for s in fnode.body]
+    start = [i for i, t in enumerate(texts) if t.startswith(c.segment['from'])]
+    if len(start) != 1:
+        raise LookupError(f'segment start `{c.segment["from"]}` matches {len(start)} statements')
+    if c.segment.get('to') is None:
+        return fnode.body[start[0] :]
+    end = [i for i, t in enumerate(texts) if t.startswith(c.segment['to']) and i > start[0]]
+    if len(end) < 1:
+        raise LookupError(f'segment end `{c.segment["to"]}` not found')
+    return fnode.body[start[0] : end[0]]
+
+
 def build_entry(it, c, fnode, fr):
     """parameters, ghosts, requires, old-snapshot, lets"""
     ctx = it.ctx
@@ -199,13 +219,13 @@ def build_entry(it, c, fnode, fr):
     # defaults for undeclared params
     posnames = [x.arg for x in a.posonlyargs + a.args]
     nd = len(a.defaults)
-    for i, name in enumerate(posnames):
+    for i, name in enumerate(posnames if not c.segment else []):
         if name not in fr.locs:
             j = i - (len(posnames) - nd)
             if j < 0:
                 raise Unsupported(f'parameter {name} of {c.qualname} has no spec')
             fr.locs[name] = it.eval(a.defaults[j], fr)
-    for kw, d in zip(a.kwonlyargs, a.kw_defaults):
+    for kw, d in zip(a.kwonlyargs if not c.segment else [], a.kw_defaults):
         if kw.arg not in fr.locs:
             if d is None:
                 raise Unsupported(f'parameter {kw.arg} of {c.qualname} has no spec')
@@ -308,6 +328,11 @@ def verify_function(reg, c, tier='quick', solve=None, max_paths=MAX_PATHS):
         rep.out_of_reach = f'target not extractable: {e}'
         return rep
     mod = reg.module_for(c.file)
+    try:
+        body = segment_stmts(c, fnode)
+    except LookupError as e:
+        rep.out_of_reach = f'segment not extractable: {e}'
+        return rep
     stack = [[]]
     covers = {k: False for k in range(len(c.covers))}
     while stack:
@@ -318,11 +343,12 @@ def verify_function(reg, c, tier='quick', solve=None, max_paths=MAX_PATHS):
         ctx = Ctx(prefix, solve)
         it = Interp(ctx, reg)
         fr = Frame(mod.__dict__, {}, None, c, c.file, c.qualname)
+        fr.fnode = fnode
         outcome, value = None, None
         try:
             build_entry(it, c, fnode, fr)
             try:
-                it.exec_block(fnode.body, fr)
+                it.exec_block(body, fr)
                 outcome, value = 'return', None
             except _Return as r:
                 outcome, value = 'return', r.value
